@@ -225,7 +225,8 @@ def obs_pipeline(prop, tier, seed, work, t0, flavor="sync"):
     n += k
     log("gen edge: %d" % k)
     c = os.path.join(work, "GenTree.cfg")
-    tconst = dict(OBS_MC, Depth=(4 if handles else 3) if quick else (5 if handles else 4), GuardIds={1})
+    # the full-alphabet tree grows by a factor of ~50 per level: depth 4 (3.5 M behaviours) only in C01's thorough tier
+    tconst = dict(OBS_MC, Depth=(4 if handles else 3) if quick else (5 if handles else 4 if prop == "C01" else 3), GuardIds={1})
     if not handles and quick:
         tconst.update(Kinds={"shared" if seed % 2 else "unique"})
     write_cfg(c, spec=spec, constants=tconst, constraints=["BoundTree"], invariants=["PrintAtDepth"])
@@ -1255,11 +1256,11 @@ def lin_collect(prop, tier, seed, work, beh_path, offset):
     hrc = run_harness(["threads", inputs, trace], timeout=3000)
     # race family: every 3-call program over a small alphabet (complete tree), each run many times free-running
     c = os.path.join(work, "GenLinRace.cfg")
-    write_cfg(c, spec="LSpecRace", constants=dict(LIN_CONST, Threads={1, 2, 3}, Depth=6 if quick else 7, SetupMin=0, SetupMax=9),
+    write_cfg(c, spec="LSpecRace", constants=dict(LIN_CONST, Threads={1, 2, 3}, Depth=6, SetupMin=0, SetupMax=9),
               constraints=["BoundTree"], invariants=["PrintAtDepth"])
     race = os.path.join(work, "lin-race.ndjson")
     krace, _ = gen_behaviours("GenLin", c, work, race, "tree", tag="grace", workers=8)
-    reps = (150 if prop == "C04" else 30) if quick else (1500 if prop == "C04" else 300)
+    reps = (150 if prop == "C04" else 30) if quick else (1000 if prop == "C04" else 200)
     trace2 = os.path.join(work, "lin-trace-race.ndjson")
     hrc2 = run_harness(["threads", race, trace2, "--repeat", str(reps), "--align", "--jitter", "100"], timeout=6000)
     log("race programs: %d x %d runs" % (krace, reps))
